@@ -66,7 +66,9 @@ def gen_val(r, allow_nonstr=True):
         n = r.choice([1, 1, 2, 3])
         return ["s", "".join(r.choice(VALUE_TEXT) for _ in range(n))]
     if k < 0.78:
-        return ["n", r.randint(0, 999)]
+        # numbers that compare equal to False / True (0, 1) are as likely as the others: only the
+        # objects None / False are omitted, not what `==` them (seeded/C13-3)
+        return ["n", r.choice([0, 0, 1, 7, r.randint(0, 999)])]
     if k < 0.86:
         return ["t"]
     if k < 0.92:
